@@ -10,10 +10,10 @@ BOUNDS = {
              'over-valence flag per species, 1 seed; n = 2 with 2 rules (1 product each) and 2 seeds; n = 3 with 2 rules (1 product each) and 1 seed; '
              'species sizes in {1,2} (all 3 + 7 non-uniform size vectors) with symbolic containment for n = 2 (2 rules, 2 seeds) and n = 3 (1 rule, 2 seeds)',
     'thorough': 'additionally n = 2 species, 2 rules, 2 seeds, 2 products each; n = 4 species, 1 rule, 1 product; n = 3 species, '
-                '2 rules, 2 seeds, 1 product; sizes in {1,2,3} (the 18 non-uniform vectors containing a 3) with symbolic containment for '
-                'n = 3, 2 rules, 2 seeds',
+                '2 rules, 2 seeds, 1 product (the size/containment obligations are those of the quick tier: 3 species with 2 rules, 2 seeds '
+                'and non-uniform sizes did not close within the budget and are outside the claim)',
 }
-STUBS = ['fake Chem/PeriodicTable in GenRxnNet: species are abstract ids with an atom count (1..3, concrete per obligation) and a '
+STUBS = ['fake Chem/PeriodicTable in GenRxnNet: species are abstract ids with an atom count (1..2, concrete per obligation) and a '
          'symbolic proper-substructure relation between species of different size; GetSubstructMatch(q) returns one atom per '
          'query atom when q is the species itself or contained in it; '
          'a rule is a symbolic successor relation; valence filter = symbolic flag per species',
@@ -242,10 +242,6 @@ def obligations(tier, seed):
             obs.append(dict(name='closure_sub_n3_r1_s2_w1_z%d%d%d' % sz, func='h_closure',
                             param=dict(n=3, rules=1, seeds=2, width=1, sizes=list(sz)), timeout=to))
     if not q:
-        for sz in itertools.product((1, 2, 3), repeat=3):
-            if len(set(sz)) > 1 and 3 in sz:
-                obs.append(dict(name='closure_sub_n3_r2_s2_w1_z%d%d%d' % sz, func='h_closure',
-                                param=dict(n=3, rules=2, seeds=2, width=1, sizes=list(sz)), timeout=to))
         obs += _split('closure_n2_r2_s2', dict(n=2, rules=2, seeds=2, width=2), 2, to)
         obs += _split1('closure_n4_r1_w1', dict(n=4, rules=1, seeds=1, width=1), 4, to)
         obs += _split2('closure_n3_r2_s2_w1', dict(n=3, rules=2, seeds=2, width=1), 3, to)
